@@ -122,7 +122,7 @@ def link(ctx, cfg):
     nb = _blocks_needed(n, b)
     nsym = nb * n // b
     t, d, src = capability(enc, code)
-    msg = ctx.bits("m", (nb * k,))
+    msg = ctx.bits("m", (1, nb * k))  # batch-of-one layout: several blocks per row are the documented multi-block layout
     if chan == "ideal":
         channel = PerfectChannel()
     elif chan == "displaced":
@@ -132,11 +132,11 @@ def link(ctx, cfg):
         lim = dmin_sq(cre, cim) / 4
         is_c = const.is_complex()
         if is_c:
-            delta = ctx.complexes("delta", (nsym,), sampler=lambda r, s=float(lim) ** 0.5: r.uniform(-0.6, 0.6) * s)
-            dr, di = PC(delta)
+            delta = ctx.complexes("delta", (1, nsym), sampler=lambda r, s=float(lim) ** 0.5: r.uniform(-0.6, 0.6) * s)
+            dr, di = (a.reshape(-1) for a in PC(delta))
         else:
-            delta = ctx.reals("delta", (nsym,), sampler=lambda r, s=float(lim) ** 0.5: r.uniform(-0.9, 0.9) * s)
-            dr, di = P(delta), [0] * nsym
+            delta = ctx.reals("delta", (1, nsym), sampler=lambda r, s=float(lim) ** 0.5: r.uniform(-0.9, 0.9) * s)
+            dr, di = P(delta).reshape(-1), [0] * nsym
         for i in range(nsym):
             # strictly inside half the minimum distance, with a 1e-6 relative margin for the float tables
             ctx.assume(S.lt(S.add(S.mul(dr[i], dr[i]), S.mul(di[i], di[i])), lim * Fraction(999999, 1000000)))
@@ -149,11 +149,11 @@ def link(ctx, cfg):
             ctx.assume(S.le(SP.weight(ep[blk]), t))
         flat = ep.reshape(-1)
         if mod[0] == "bpsk":
-            sign = ctx.tensor(np.array([S.sub(1, S.mul(2, v)) for v in flat], dtype=object))
+            sign = ctx.tensor(np.array([[S.sub(1, S.mul(2, v)) for v in flat]], dtype=object))
             channel = LambdaChannel(lambda x, *a, **kw: x * sign)
         else:
-            sr = ctx.tensor(np.array([S.sub(1, S.mul(2, flat[2 * i])) for i in range(nsym)], dtype=object))
-            si = ctx.tensor(np.array([S.sub(1, S.mul(2, flat[2 * i + 1])) for i in range(nsym)], dtype=object))
+            sr = ctx.tensor(np.array([[S.sub(1, S.mul(2, flat[2 * i])) for i in range(nsym)]], dtype=object))
+            si = ctx.tensor(np.array([[S.sub(1, S.mul(2, flat[2 * i + 1])) for i in range(nsym)]], dtype=object))
             channel = LambdaChannel(lambda x, *a, **kw: torch.complex(x.real * sr, x.imag * si))
     model = ChannelCodeModel(encoder=enc, constraint=IdentityConstraint(), modulator=modulator, channel=channel, demodulator=demodulator, decoder=dec)
     out = ctx.call(model.forward, msg)
@@ -161,7 +161,7 @@ def link(ctx, cfg):
     if not out.ok:
         return
     res = out.value[0] if isinstance(out.value, tuple) else out.value
-    ctx.ensure("message_recovered", tuple(res.shape) == (nb * k,) and SP.all_eq(P(res), P(msg)), note=f"{nb} block(s), {nsym} symbols, t={t} ({src})")
+    ctx.ensure("message_recovered", tuple(res.shape) == (1, nb * k) and SP.all_eq(P(res), P(msg)), note=f"{nb} block(s), {nsym} symbols, t={t} ({src})")
     ctx.ensure("message_unmodified", out.unmodified)
 
 
@@ -191,7 +191,7 @@ def link_bm(spec, cfg, tier, seed):
     fail = None
     N = 60 if tier == "quick" else 600
     for trial in range(N):
-        m = torch.tensor([float(rng.randint(0, 1)) for _ in range(nb * k)])
+        m = torch.tensor([[float(rng.randint(0, 1)) for _ in range(nb * k)]])
         e = torch.zeros(nb, n)
         for blk in range(nb):
             for j in rng.sample(range(n), rng.randint(0, t)):
